@@ -141,6 +141,32 @@ func C03(c *Ctx) {
 	r.Floor("R03.2", "CheckProof implementations", len(producers), 1)
 	for _, fn := range producers {
 		for _, ret := range core.Returns(fn) {
+			if fn.Recover != nil && ret.Block() == fn.Recover {
+				// the return taken after a recovered panic: the results are what the recovering closure assigned
+				nFalse++
+				_, cl := recoverDefer(fn)
+				okErr := false
+				if cl != nil {
+					for _, b := range cl.Blocks {
+						for _, in := range b.Instrs {
+							st, isSt := in.(*ssa.Store)
+							if !isSt {
+								continue
+							}
+							fv, isFV := st.Addr.(*ssa.FreeVar)
+							if !isFV || !strings.HasSuffix(fv.Type().String(), "*error") {
+								continue
+							}
+							if cc, isC := core.Strip(st.Val).(*ssa.Call); isC && core.ErrCtors[core.CalleeName(cc)] {
+								okErr = true
+							}
+						}
+					}
+				}
+				r.Check(okErr, "R03.2", shortFn(fn)+": the recovered-panic return carries an error", c.P.Pos(fn.Pos()), "the recovering closure assigns a constructed error",
+					"after a recovered panic CheckProof returns without a non-nil error; the executor calls err.Error() on it (nil dereference in a bare goroutine)")
+				continue
+			}
 			for _, o := range core.RetOrigins(ret.Results[0]) {
 				cst, ok := o.V.(*ssa.Const)
 				if ok && cst.Value != nil && cst.Value.String() == "true" {
